@@ -16,6 +16,8 @@ def run(ctx) -> None:
     res, stats = family_results(ctx, tags=("not",))
     ctx.extra["skeleton_stats"] = stats
     report(ctx, res, "C04", prefixes=("N1.", "N2."), cats=("$not",), compile_tags=("not",))
+    # compiling leaves the rule document as loaded: a $not item shared through a YAML alias or a macro body keeps its times
+    report(ctx, [r for r in res if r.rule.startswith("X.input") and "not" in r.tags], "C04", prefixes=("X.input",))
     # N0: every written $not is a $not node of the typed tree with the written argument (no "not not X = X" folding:
     # the double negation consumes ONE instruction where X matches, X itself consumes all it spans)
     report(ctx, [r for r in res if r.rule == "T1.tree-mirrors-pattern" and "not" in r.tags], "C04.N0", prefixes=("T1.",))
